@@ -354,6 +354,22 @@ func (m *Machine) assert(c *Term, msg string) {
 	neg := Not(c)
 	res := "unknown"
 	var model Model
+	// a goal already proved on another path from a subset of this path's
+	// assumptions needs no new query
+	var pcHashes []uint64
+	if m.shared != nil {
+		set := make(map[uint64]bool, len(m.pc))
+		for _, p := range m.pc {
+			set[p.Hash()] = true
+			pcHashes = append(pcHashes, p.Hash())
+		}
+		if m.shared.provenUnder(c.Hash(), set) {
+			m.res.Asserts++
+			m.res.Notes["assertion-reused-from-a-prefix-path"] = "yes"
+			m.assume(c)
+			return
+		}
+	}
 	if !neg.IsFalse() {
 		res, model = m.decide(neg)
 	} else {
@@ -362,6 +378,9 @@ func (m *Machine) assert(c *Term, msg string) {
 	switch res {
 	case "unsat":
 		m.res.Asserts++
+		if m.shared != nil {
+			m.shared.recordProven(c.Hash(), pcHashes)
+		}
 	case "sat":
 		f := &Failure{Harness: m.cfg.Name, Msg: msg, Kind: "assert", Prefix: append([]int(nil), m.prefix[:m.pos]...)}
 		f.Valid = m.validate(model, neg)
